@@ -120,6 +120,7 @@ mod gen;
 mod mgen;
 mod multi;
 mod streams;
+mod wave4;
 
 // ---------------------------------------------------------------------------------------------
 // printing of results
@@ -497,6 +498,8 @@ pub fn parse_hex(s: &str) -> Option<Vec<u8>> {
 pub struct Case {
     pub buf: usize,
     pub full: bool,
+    /// 4th header token `ss`: the case is run in a child process on a thread with a deliberately small stack (wave 4)
+    pub ss: bool,
     pub data: Vec<u8>,
     pub sched: Sched,
     pub ops: Vec<Op>,
@@ -508,7 +511,9 @@ pub fn parse_case(line: &str) -> Option<Case> {
     // optional 4th header token `full`: print ALL results as raw and `any` as view (out-of-domain twins: the
     // check only counts model/implementation differences on them)
     let full = hdr.len() == 4 && hdr[3] == "full";
-    if hdr.len() != 3 && !full {
+    // 4th header token `ss`: same case, but run on a small stack (see `run_in_small_stack_child`); the model ignores it
+    let ss = hdr.len() == 4 && hdr[3] == "ss";
+    if hdr.len() != 3 && !full && !ss {
         return None;
     }
     let buf = parse_dec(hdr[0])? as usize;
@@ -521,7 +526,7 @@ pub fn parse_case(line: &str) -> Option<Case> {
     for p in parts {
         ops.push(parse_op(p)?);
     }
-    Some(Case { buf, data, sched, ops, full })
+    Some(Case { buf, data, sched, ops, full, ss })
 }
 
 // ---------------------------------------------------------------------------------------------
@@ -807,6 +812,48 @@ pub fn oracle_run(data: &[u8], ops: &[Op]) -> Vec<String> {
 // run
 // ---------------------------------------------------------------------------------------------
 
+static SS_CHILD: std::sync::atomic::AtomicBool = std::sync::atomic::AtomicBool::new(false);
+
+/// Stack of the worker thread of an `ss` child: 256 KiB of head room plus four times the size of the Reader value itself
+/// (its buffer is an inline array today: `Reader::new` and a by-value move of it legitimately need that much in a debug
+/// build). Loops of the reader need a constant amount of stack; recursion per byte / per refill / per element over an
+/// input of tens of thousands of bytes delivered in tens of thousands of reads needs megabytes.
+fn small_stack() -> usize {
+    (256 << 10) + 4 * std::mem::size_of::<Reader>()
+}
+
+/// Run one case in a child process (`run --ss-child 1`) whose worker thread has the small stack: the child's death
+/// (stack overflow = SIGSEGV/abort, which `catch_unwind` cannot turn into a value) is reported as the view `STACK!…`,
+/// so the check gets a failing input, a shrunk script and a replay like for any other violation.
+fn run_in_small_stack_child(line: &str) -> String {
+    use std::io::Write;
+    use std::process::{Command, Stdio};
+    let exe = match std::env::current_exe() {
+        Ok(e) => e,
+        Err(_) => return out1("INVALID"),
+    };
+    let mut child = match Command::new(exe).args(["run", "--ss-child", "1"]).stdin(Stdio::piped()).stdout(Stdio::piped()).stderr(Stdio::null()).spawn() {
+        Ok(c) => c,
+        Err(_) => return out1("INVALID"),
+    };
+    {
+        let mut stdin = child.stdin.take().unwrap();
+        let _ = stdin.write_all(line.as_bytes());
+        let _ = stdin.write_all(b"\n");
+    }
+    let out = match child.wait_with_output() {
+        Ok(o) => o,
+        Err(_) => return out1("INVALID"),
+    };
+    let text = String::from_utf8_lossy(&out.stdout);
+    let first = text.lines().next().unwrap_or("");
+    if out.status.success() && first.starts_with("I ") {
+        first.to_string()
+    } else {
+        out2("crashed-on-small-stack", &format!("STACK!the-process-died-on-a-{}-KiB-stack", small_stack() >> 10))
+    }
+}
+
 fn run_case(line: &str) -> String {
     // several live readers: `<BUF> <hex0> <sched0> + <hex1> <sched1> ... ; <k>.<op> ; ...` (multi.rs)
     {
@@ -823,6 +870,9 @@ fn run_case(line: &str) -> String {
         Some(c) => c,
         None => return "I INVALID | V INVALID".to_string(),
     };
+    if case.ss && !SS_CHILD.load(std::sync::atomic::Ordering::Relaxed) {
+        return run_in_small_stack_child(line);
+    }
     let ex = exec(&case.data, &case.sched, &case.ops);
     if case.full {
         return out2(&join_results(&ex.results), "any");
@@ -880,6 +930,15 @@ fn main() {
     if std::env::args().nth(1).as_deref() == Some("probe") {
         install_quiet_panic_hook();
         println!("{}", observed_buf());
+        return;
+    }
+    // `run --ss-child 1`: the cases (one, sent by `run_in_small_stack_child`) are answered on a thread with a small stack
+    if std::env::args().any(|a| a == "--ss-child") {
+        SS_CHILD.store(true, std::sync::atomic::Ordering::Relaxed);
+        let t = std::thread::Builder::new().stack_size(small_stack()).spawn(|| cli(gen::gen, run_case)).unwrap();
+        if t.join().is_err() {
+            std::process::exit(3);
+        }
         return;
     }
     cli(gen::gen, run_case);
